@@ -45,6 +45,7 @@ struct GMGPolarVerif {
     double rho_raw() { return s.mean_residual_reduction_factor_; }
     const SourceTerm& source() { return *s.source_term_; }
     const BoundaryConditions& boundary() { return *s.boundary_conditions_; }
+    int chooseLevels(const PolarGrid& g, int max_levels) { s.max_levels_ = max_levels; return s.chooseNumberOfLevels(g); }
 };
 
 // ---- trace rendering: map Vector addresses back to (level, buffer)
@@ -462,6 +463,30 @@ static int mode_reuse(int cases)
     return 0;
 }
 
+// ---------------------------------------------------------------------------------------------- levels (C18)
+// chooseNumberOfLevels depends on (nr, ntheta, maxLevels) only: it is called on real PolarGrids for EVERY nr up to max_nr, a list of
+// angular sizes (powers of two and not) and level caps — not only for the sizes the grid generator produces
+static int mode_levels(int max_nr)
+{
+    GMGPolar g;
+    GMGPolarVerif v(g);
+    for (int nr = 3; nr <= max_nr; nr++)
+        for (int nt : {4, 6, 8, 12, 16, 20, 24, 32, 48, 64, 128})
+            for (int ml : {-1, 1, 2, 3, 4, 7}) {
+                std::vector<double> radii(nr), angles(nt + 1);
+                for (int i = 0; i < nr; i++) radii[i] = 0.1 + 1.2 * i / (nr - 1);
+                for (int j = 0; j <= nt; j++) angles[j] = 2 * M_PI * j / nt;
+                radii[nr - 1] = 1.3; angles[nt] = 2 * M_PI;
+                PolarGrid grid(radii, angles);
+                std::string out;
+                try { out = std::to_string(v.chooseLevels(grid, ml)); }
+                catch (const std::exception& e) { out = "throw"; }
+                printf("LEV nr=%d nt=%d max=%d out=%s\n", nr, nt, ml, out.c_str());
+            }
+    printf("end\n");
+    return 0;
+}
+
 // ---------------------------------------------------------------------------------------------- rhs (C02)
 // the level right-hand sides setup() builds (build_rhs_f, injection, discretize_rhs_f) with the data they are built from
 static int mode_rhs(int cases)
@@ -665,6 +690,7 @@ int main(int argc, char** argv)
     if (mode == "solve") return mode_solve(a, b);
     if (mode == "reuse") return mode_reuse(a);
     if (mode == "options") return mode_options(a);
+    if (mode == "levels") return mode_levels(a);
     if (mode == "rhs") return mode_rhs(a);
     if (mode == "order") return mode_order(a, b);
     fprintf(stderr, "usage: h_solver cycle|fmg|solve|reuse ...\n");
